@@ -263,6 +263,10 @@ func (f *FSM) MustCopyWithState(state State) *FSM {
 				exists = true
 			}
 		}
+		// a machine can also be restored in one of its final states (e.g. a cancelled round)
+		if !exists && f.IsFinState(state) {
+			exists = true
+		}
 		if !exists {
 			panic(fmt.Sprintf("cannot set state, not exists  \"%s\" for \"%s\"", state, f.name))
 		}
@@ -456,6 +460,14 @@ func (f *FSM) StatesList() (states []State) {
 		}
 	}
 
+	return
+}
+
+// FinStatesList returns the final states of the machine: states it can enter but never leaves
+func (f *FSM) FinStatesList() (states []State) {
+	for state := range f.finStates {
+		states = append(states, state)
+	}
 	return
 }
 
